@@ -144,6 +144,32 @@ def group_model(which, fam):
             {"alpha": -1.0, "beta": 0.0, "Mach_number": 0.5, "wing.twist_cp": np.array([0.0, -1.0, 2.0])},
         ]
         mdl = history.Model("AeroPoint_compressible_sideslip", build, pts, ["ap.CL", "ap.CD", "ap.CM"], ["alpha", "beta", "Mach_number", "wing.twist_cp"], tol=1e-10)
+    elif which in ("struct_tube", "struct_wingbox"):
+        model = which.split("_")[1]
+
+        def build(mode):
+            m = gen.make_mesh("twdi", 2, 4, "left", fam, span=10.0, chord=1.6)
+            kw = dict(struct_weight_relief=True, twist_cp=np.array([2.0, 3.0, 1.0]))
+            if model == "tube":
+                kw["thickness_cp"] = np.array([0.015, 0.02, 0.03])
+            else:
+                kw.update(spar_thickness_cp=np.array([0.004, 0.006, 0.008]), skin_thickness_cp=np.array([0.008, 0.012, 0.016]))
+            sf = builders.struct_surface("wing", m, True, model, **kw)
+            return builders.build_struct(sf, np.concatenate([gen.gen((4, 3), 3, -2e3, 4e3, fam), gen.gen((4, 3), 4, -5e2, 5e2, fam)], axis=1), mode=mode, load_factor=1.5)
+
+        tk = "thickness_cp" if model == "tube" else "spar_thickness_cp"
+        base = np.array([0.015, 0.02, 0.03]) if model == "tube" else np.array([0.004, 0.006, 0.008])
+        L0 = np.concatenate([gen.gen((4, 3), 3, -2e3, 4e3, fam), gen.gen((4, 3), 4, -5e2, 5e2, fam)], axis=1)
+        pts = [
+            {"loads": L0, tk: base, "load_factor": 1.5},
+            # structure only (same loads): the factorisation changes, the seeds of a response linear in the displacements do not
+            {"loads": L0, tk: base * 1.4, "load_factor": 1.5},
+            {"loads": -0.5 * L0[::-1], tk: base * 0.8, "load_factor": 2.5},
+        ]
+        mdl = history.Model("SpatialBeamAlone_" + model, build, pts, ["failure", "structural_mass", "disp", "vonmises"], ["loads", tk, "load_factor", "geometry.twist_cp"], tol=1e-10, has_chk=False)
+        # has_chk=False: check_partials overwrites the CONSTANT permutation Jacobian of LocalStiffPermuted (entries 1.0) with forward
+        # differences of stiffness values of order 1e9 (relative error 5e-2) and the framework never restores it - the framework
+        # residue of DESIGN section 2, here far above any useful tolerance, so the operation is left out of this model's alphabet
     elif which == "as_pm":
         def build(mode):
             m = gen.make_mesh("twdi", 2, 3, "left", fam, span=10.0, chord=1.6)
@@ -234,13 +260,15 @@ def levels(tier, seed):
         for mode in ("fwd", "rev") if (idx < DEEP or tier == "thorough") else (("fwd", "rev")[idx % 2],):
             first.append(dict(level="comp", idx=idx, comp=COMP_MODELS[idx][0], mode=mode, fam=fam, hist=[["goto", 0]], maxd=depth if idx < DEEP else shallow))
     # group level: complete enumeration within the deviation bound (no pruning needed)
-    kd = {"aero": 2 if tier == "quick" else 3, "aero_rot": 1 if tier == "quick" else 2, "aero_beta": 1 if tier == "quick" else 2, "as_tube": 1 if tier == "quick" else 2, "as_wingbox": 1 if tier == "quick" else 2, "as_pm": 1 if tier == "quick" else 2}
+    kd = {"aero": 2 if tier == "quick" else 3, "aero_rot": 1 if tier == "quick" else 2, "aero_beta": 1 if tier == "quick" else 2, "struct_tube": 1 if tier == "quick" else 2, "struct_wingbox": 1 if tier == "quick" else 2, "as_tube": 1 if tier == "quick" else 2, "as_wingbox": 1 if tier == "quick" else 2, "as_pm": 1 if tier == "quick" else 2}
     gops = list(DEV_OPS) + ([["chk"]] if tier == "thorough" else [])
     group_states = []
     for which, k in kd.items():
         for mode in ("fwd", "rev"):
-            hs = deviations(k, gops)
-            if tier == "thorough":
+            hs = deviations(k, gops if group_model(which, fam).has_chk else list(DEV_OPS))
+            if not group_model(which, fam).has_chk:
+                pass
+            elif tier == "thorough":
                 hs = [h for h in hs if sum(1 for o in h if o[0] == "chk") <= 1]
             else:
                 # one history with check_partials per model and mode keeps the operation in the quick alphabet
